@@ -602,6 +602,9 @@ def judge_net(ctx, rep):
         sig = None
         if r["verdict"] == "panic":
             sig, what = "net/panic", "panicked"
+        elif r["verdict"] == "exit":
+            # the code under test ended the process (log.Fatalf): the node does not join, which is safe
+            ctx.note("network-level call ended the process: %s/%s %s" % (r["entry"], r["name"], r.get("err", "")))
         elif r["flag"] and r["verdict"] != "join":
             sig, what = "net/disabled-refuses", "refused although -disable_timesafeguard is set"
         elif not r["flag"] and r["verdict"] == "join" and alive_bad:
